@@ -65,9 +65,15 @@ def analyse(assembled, res):
     text = assembled['text']
     lines = text.split('\n')
     ranges = fn_ranges(text)
-    extracted = {f['name']: f for f in assembled['fns']}
+    extracted = {f['key']: f for f in assembled['fns']}
+    by_name = {}
+    for f in assembled['fns']:
+        by_name.setdefault(f['name'], []).append(f)
 
     def fn_at(line):
+        for f in assembled['fns']:
+            if f['first'] <= line <= f['last']:
+                return (f['key'], 'exec', f['first'], f['last'])
         best = None
         for (name, mode, a, b) in ranges:
             if a <= line <= b and (best is None or a >= best[2]):
@@ -80,11 +86,14 @@ def analyse(assembled, res):
         for oid in f['ensures']:
             obligations[oid] = 'discharged'
         for n in f['loops']:
-            obligations[f"{f['name']}.loop{n}"] = 'discharged'
-        obligations[f"{f['name']}.safety"] = 'discharged'
+            obligations[f"{f['key']}.loop{n}"] = 'discharged'
+        obligations[f"{f['key']}.safety"] = 'discharged'
     for (name, mode, a, b) in ranges:
         if mode == 'proof':
             obligations[f"lemma.{name}"] = 'discharged'
+    def key_of_fnname(nm):
+        c = by_name.get(nm, [])
+        return c[0]['key'] if len(c) == 1 else None
     out = dict(obligations=obligations, failures=[], status='ok', smt_s=0.0, verified=0, errors=0, notes=[])
     if res.get('timeout'):
         out['status'] = 'undecided'
@@ -176,8 +185,11 @@ def analyse(assembled, res):
             for fb in mod.get('function-breakdown', []):
                 if not fb.get('success', True):
                     nm = fb['function'].split('::')[-1]
-                    oid = f"{nm}.safety" if nm in extracted else f"lemma.{nm}"
-                    if not any(f['function'] == nm for f in out['failures']) and obligations.get(oid) == 'discharged':
+                    k_ = key_of_fnname(nm)
+                    if k_ is None and nm in by_name:
+                        continue   # ambiguous name: diagnostics carry line numbers and are attributed there
+                    oid = f"{k_}.safety" if k_ else f"lemma.{nm}"
+                    if not any(f['function'] in (nm, k_) for f in out['failures']) and obligations.get(oid) == 'discharged':
                         obligations[oid] = 'undecided'
                         if out['status'] == 'ok':
                             out['status'] = 'undecided'
